@@ -51,6 +51,7 @@ from .ast_nodes import (
 )
 from .opcodes import OpCode
 from .values import UNDEFINED
+from .errors import JSError
 
 
 @dataclass
@@ -155,11 +156,28 @@ class Compiler:
         if arg is not None:
             if opcode in self._JUMP_OPCODES:
                 # 16-bit little-endian for jump targets
+                self._check_jump_target(arg)
                 self.bytecode.append(arg & 0xFF)
                 self.bytecode.append((arg >> 8) & 0xFF)
             else:
+                if not 0 <= arg <= 0xFF:
+                    raise JSError(
+                        f"Program too large: operand {arg} of {opcode.name} exceeds "
+                        "the limit of 255 (too many constants, variables, arguments "
+                        "or literal elements in one function)",
+                        "RangeError",
+                    )
                 self.bytecode.append(arg)
         return pos
+
+    def _check_jump_target(self, target: int) -> None:
+        """Jump targets are 16-bit: refuse code they cannot address."""
+        if not 0 <= target <= 0xFFFF:
+            raise JSError(
+                "Program too large: a function body exceeds the limit of "
+                "65535 bytes of bytecode",
+                "RangeError",
+            )
 
     def _set_loc(self, node: Node) -> None:
         """Set current source location from an AST node."""
@@ -184,6 +202,7 @@ class Compiler:
         """
         if target is None:
             target = len(self.bytecode)
+        self._check_jump_target(target)
         self.bytecode[pos + 1] = target & 0xFF  # Low byte
         self.bytecode[pos + 2] = (target >> 8) & 0xFF  # High byte
 
